@@ -67,7 +67,7 @@ class Scenario:
         )
 
     def request(self) -> Any:
-        return C.honest_request(self.zsks, self.layout, start=self.start, zsk_ttl=self.zsk_ttl, req_id=self.req_id)
+        return C.honest_request(self.zsks, self.layout, start=self.start, zsk_ttl=self.zsk_ttl, req_id=self.req_id, bundle_prefix=self.req_id + "-bundle")
 
 
 def pick_ksk_key(r: Any, alg: int, quick: bool) -> K.TestKey:
